@@ -5,7 +5,7 @@
    count guards and NotFound type that translator/cmd/osmapi regenerates from /repo/osmapi on
    every run (gen/GenOsmapi.v); [spec_path], [spec_query], [request_ok], [status_class],
    [spec_result] (C20/SpecApi.v) are written from the API v0.6 documentation and never look at
-   the generated file.  fmt/strconv/time/net-url text functions and net/http + encoding/xml are
+   the generated file.  fmt/strconv/strings/time/net-url text functions and net/http + encoding/xml are
    hand models (C20/Text.v, Model.v) tied by the correspondence run (harness/cmd/c20). *)
 From Coq Require Import ZArith List String Ascii Bool.
 From Verif Require Import C20.Syntax C20.Text C20.Types C20.Model C20.SpecApi
@@ -15,41 +15,37 @@ Open Scope Z_scope.
 Open Scope list_scope.
 
 (* 1. url_matches_spec.  For every call, every id / version / id list / option list / query
-      string / configured base without '?': the URL handed to the transport, split at its
-      first '?', is base ++ the documented path, and its query, decoded the way a server
-      decodes it (split at '&' and '=', percent-decoding), is the documented parameter list in
-      order.  Bounding-box coordinates are compared as numbers at OSM's resolution (half a unit
-      of the 7th decimal); hypothesis [bbox_six_decimals] excludes exactly the known finding
-      (statement 3). *)
+      string / finite bounding box / configured base without '?': the URL handed to the
+      transport, split at its first '?', is base ++ the documented path, and its query, decoded
+      the way a server decodes it (split at '&' and '=', percent-decoding), is the documented
+      parameter list in order.  Bounding-box coordinates are compared as numbers at OSM's
+      resolution: each transmitted coordinate is within half a unit of the 7th decimal of the
+      argument.  (Full statement; it was refuted for the unrepaired code, see 3.) *)
 Theorem C20_url_matches_spec : forall cfg ep,
   base_ok cfg = true -> options_valid ep = true -> args_finite ep = true ->
-  bbox_six_decimals ep = true ->
   exists u, url_of cfg ep = Ok u /\ request_ok cfg ep u = true.
-Proof. intros cfg ep Hb Hv Hf Hs. exact (url_matches_spec_at true cfg ep Hb Hv Hf (fun _ => Hs)). Qed.
+Proof. exact (url_matches_spec_at true). Qed.
 Print Assumptions C20_url_matches_spec.
 
-(* 2. the same for ALL finite bounding boxes, coordinates compared at half a unit of the 6th
-      decimal: nothing but the 7th decimal of a bbox coordinate is ever lost *)
-Theorem C20_url_matches_spec_upto_sixth_decimal : forall cfg ep,
-  base_ok cfg = true -> options_valid ep = true -> args_finite ep = true ->
-  exists u, url_of cfg ep = Ok u /\ request_ok_at false cfg ep u = true.
-Proof.
-  intros cfg ep Hb Hv Hf.
-  exact (url_matches_spec_at false cfg ep Hb Hv Hf (fun E => False_ind _ (Bool.diff_false_true E))).
-Qed.
-Print Assumptions C20_url_matches_spec_upto_sixth_decimal.
+(* 2. what formatCoord transmits, for every finite float64: the text reads back as
+      round-half-even(|x| * 10^7) / 10^7 (a zero 7th decimal dropped), within half a unit of the
+      7th decimal of x *)
+Theorem C20_format_coord_reads_back : forall x, finite x = true ->
+  let n := scaled 7 x in
+  read_decimal (coord_text x) =
+    Some (if n mod 10 =? 0 then (f_neg x, n / 10, 6%nat) else (f_neg x, n, 7%nat)) /\
+  coord_text_ok true x (coord_text x) = true.
+Proof. intros x H. split; [exact (coord_text_read x H)|exact (coord_text_faithful true x H)]. Qed.
+Print Assumptions C20_format_coord_reads_back.
 
-(* 3. FULL statement (no bbox_six_decimals hypothesis):
-        forall cfg ep, base_ok cfg = true -> options_valid ep = true -> args_finite ep = true ->
-          exists u, url_of cfg ep = Ok u /\ request_ok cfg ep u = true
-      is FALSE of the code: Notes with MaxLat = 1.1234564 requests ...,1.123456
-      (known finding bbox-coordinate-needs-7th-decimal, replayed by the harness corpus). *)
-Theorem C20_url_matches_spec_all_bboxes_refuted :
-  exists cfg ep u,
-    base_ok cfg = true /\ options_valid ep = true /\ args_finite ep = true /\
-    url_of cfg ep = Ok u /\ request_ok cfg ep u = false.
-Proof. exact url_matches_spec_strict_refuted. Qed.
-Print Assumptions C20_url_matches_spec_all_bboxes_refuted.
+(* 3. the finding that was repaired (fix: commit in /repo, known_findings.d/C20.json): the
+      package printed bbox coordinates with %f; six decimals are not faithful at OSM's
+      resolution, formatCoord is *)
+Theorem C20_percent_f_was_lossy_refuted :
+  exists x, finite x = true /\ coord_text_ok true x (fmt_f x) = false /\
+            coord_text_ok true x (coord_text x) = true.
+Proof. exact percent_f_lossy. Qed.
+Print Assumptions C20_percent_f_was_lossy_refuted.
 
 (* 4. exactly one GET, limiter first.  With valid options the request trace is: Wait (when a
       limiter is set) then one GET of the URL of statement 1; a failing Wait ends the call
@@ -160,12 +156,6 @@ Theorem C20_query_escape_roundtrip : forall q, query_unescape (query_escape q) =
 Proof. exact escape_roundtrip. Qed.
 Print Assumptions C20_query_escape_roundtrip.
 
-Theorem C20_percent_f_reads_back : forall x, finite x = true ->
-  read_decimal (fmt_f x) = Some (f_neg x, scaled 6 x, 6%nat) /\
-  coord_faithful false x (f_neg x, scaled 6 x, 6%nat) = true.
-Proof. intros x H. split; [exact (fmt_f_read x H)|exact (scaled_lax x H)]. Qed.
-Print Assumptions C20_percent_f_reads_back.
-
 (* 13. the endpoint inductive covers every exported Datasource method of the current source *)
 Theorem C20_every_exported_method_is_modelled :
   forallb (fun m => existsb (fun ep => String.eqb (method_name ep) (m_name m)) representatives)
@@ -173,6 +163,122 @@ Theorem C20_every_exported_method_is_modelled :
   /\ List.length GenOsmapi.methods = List.length representatives.
 Proof. split; [exact methods_covered|exact method_count]. Qed.
 Print Assumptions C20_every_exported_method_is_modelled.
+
+(* 14. result shape of every method, spelled out.  The table of shapes ... *)
+Theorem C20_shape_of_every_call : forall ep,
+  shape_of ep =
+  match ep with
+  | Get Node _ _ | Version Node _ _ => One 1
+  | Get Way _ _ | Version Way _ _ => One 2
+  | Get Relation _ _ | Version Relation _ _ => One 3
+  | Changeset _ | ChangesetWithDiscussion _ => One 4
+  | Note _ => One 5
+  | User _ => One 6
+  | Multi Node _ _ | History Node _ => Many 1
+  | Multi Way _ _ | History Way _ | NodeWays _ _ => Many 2
+  | Multi Relation _ _ | History Relation _ | RelationsOf _ _ _ => Many 3
+  | Notes _ _ | NotesSearch _ _ => Many 5
+  | Full _ _ _ | Map _ _ => Whole
+  | ChangesetDownload _ => WholeChange
+  end.
+Proof. exact shape_table. Qed.
+Print Assumptions C20_shape_of_every_call.
+
+(* ... is what the generated method bodies implement: decode target, returned field and count
+   guard of every exported method agree with its shape *)
+Theorem C20_every_method_implements_its_shape : forall ep,
+  exists m, find_method (method_name ep) = Some m /\
+            ret_matches (m_target m) (m_ret m) (shape_of ep).
+Proof. exact method_matches. Qed.
+Print Assumptions C20_every_method_implements_its_shape.
+
+(* list calls (Nodes/Ways/Relations, the History calls, NodeWays, the *Relations calls, Notes,
+   NotesSearch): all elements of the call's kind in document order, nothing else; an empty
+   list is a result, not an error *)
+Theorem C20_list_calls_return_their_kind : forall cfg lim ep k els,
+  options_valid ep = true -> lim <> LimiterFails -> shape_of ep = Many k ->
+  let o := call cfg lim ep (ok200 (BOsm els)) in
+  o_err o = None /\ o_data o = Some (filter (fun e => fst e =? k) els).
+Proof. exact many_returns_kind. Qed.
+Print Assumptions C20_list_calls_return_their_kind.
+
+(* WayFull, RelationFull, Map: the whole document *)
+Theorem C20_whole_document_calls : forall cfg lim ep els,
+  options_valid ep = true -> lim <> LimiterFails -> shape_of ep = Whole ->
+  let o := call cfg lim ep (ok200 (BOsm els)) in
+  o_err o = None /\ o_data o = Some (by_kind els).
+Proof. exact whole_returns_document. Qed.
+Print Assumptions C20_whole_document_calls.
+
+(* ChangesetDownload: a non-nil change holding the create / modify / delete sections; there is
+   no element-count condition: an empty osmChange, or an <osm> document, is an empty change *)
+Theorem C20_changeset_download_returns_sections : forall cfg lim id c m d els,
+  lim <> LimiterFails ->
+  (let o := call cfg lim (ChangesetDownload id) (ok200 (BChange c m d)) in
+   o_err o = None /\ o_data o = Some (tagged 1 c ++ tagged 2 m ++ tagged 3 d)) /\
+  (let o := call cfg lim (ChangesetDownload id) (ok200 (BOsm els)) in
+   o_err o = None /\ o_data o = Some []).
+Proof.
+  intros cfg lim id c m d els Hl. split.
+  - exact (download_returns_sections cfg lim id c m d Hl).
+  - exact (download_of_osm_document_is_empty cfg lim id els Hl).
+Qed.
+Print Assumptions C20_changeset_download_returns_sections.
+
+(* Limit is accepted exactly in [1, 10000], MaxDaysClosed always (any int, negative included);
+   the accepted options appear as limit= / closed= in the order given (statement 1) *)
+Theorem C20_notes_options_valid_iff : forall b q os,
+  (options_valid (Notes b os) = true <-> (forall n, In (Limit n) os -> 1 <= n <= 10000)) /\
+  (options_valid (NotesSearch q os) = true <-> (forall n, In (Limit n) os -> 1 <= n <= 10000)).
+Proof. intros b q os. split; exact (notes_options_valid_iff os). Qed.
+Print Assumptions C20_notes_options_valid_iff.
+
+(* 15. worlds: redirects and cancellation.  [call_w] adds to [call] a hand model of what
+   http.Client.Do does (net/http, not osmapi code): follow up to 10 requests, or hand a 3xx
+   back; send nothing for a finished context; and a limiter that refuses a finished context.
+   The world without redirects and with a live context is the plain call: *)
+Theorem C20_plain_world : forall cfg lim ep resp,
+  call_w cfg (plain_world lim resp) ep = call cfg lim ep resp.
+Proof. exact call_w_plain. Qed.
+Print Assumptions C20_plain_world.
+
+(* what "exactly one GET" means in every world: at most one Wait, first; then — if the limiter,
+   the context and the options permit — ONE request by the package, a GET of the documented URL
+   (statement 1), followed only by the GETs of the Locations the server named and the client's
+   policy follows (at most 9); nothing otherwise *)
+Theorem C20_trace_in_every_world : forall cfg w ep,
+  options_valid ep = true ->
+  exists u, url_of cfg ep = Ok u /\
+    o_trace (call_w cfg w ep) =
+    (if waits w ep then [EvWait] else []) ++
+    (if permitted w ep then map (EvRequest "GET") (u :: spec_followed w) else []).
+Proof.
+  intros cfg w ep Hv. exists (explicit_url cfg ep). split; [exact (url_of_explicit cfg ep Hv)|].
+  exact (proj1 (proj2 (proj2 (call_w_decompose cfg w ep Hv)))).
+Qed.
+Print Assumptions C20_trace_in_every_world.
+
+(* the result in every world that permits the request: that of the final answer when redirects
+   are followed (<= 9 hops), unexpected-status for a 3xx handed back, an ordinary error after
+   the 10th request or when the context is cancelled in flight; never data with an error *)
+Theorem C20_result_in_every_world : forall cfg w ep,
+  options_valid ep = true -> permitted w ep = true -> w_hop_status w <> 200 ->
+  let o := call_w cfg w ep in
+  match spec_result_w w ep with
+  | XData l => o_err o = None /\ o_data o = Some l
+  | XErr c => class_of (o_err o) = c /\ o_data o = None
+  end.
+Proof. exact call_w_result. Qed.
+Print Assumptions C20_result_in_every_world.
+
+(* a refusing limiter or a context that is already done: no request at all *)
+Theorem C20_refused_in_every_world : forall cfg w ep,
+  options_valid ep = true -> permitted w ep = false ->
+  let o := call_w cfg w ep in
+  (forall m u, ~ In (EvRequest m u) (o_trace o)) /\
+  class_of (o_err o) = COther /\ not_found (o_err o) = false /\ o_data o = None.
+Proof. exact call_w_refused. Qed.
+Print Assumptions C20_refused_in_every_world.
 
 (* ---------- non-vacuity ---------- *)
 
@@ -183,8 +289,7 @@ Definition ex_cfg : str := lit "http://osm.test/api/0.6".
 Definition ex_ep : endpoint := Map ex_bounds [At 1451606400].
 
 Example ex_hypotheses :
-  base_ok ex_cfg = true /\ options_valid ex_ep = true /\ args_finite ex_ep = true /\
-  bbox_six_decimals ex_ep = true.
+  base_ok ex_cfg = true /\ options_valid ex_ep = true /\ args_finite ex_ep = true.
 Proof. vm_compute. repeat split. Qed.
 
 Example ex_url :
@@ -223,5 +328,30 @@ Example ex_wait_fails :
   o_trace (call ex_cfg LimiterFails (User 1) {| r_status := 200; r_body := BOsm [(6, 1)] |}) = [EvWait].
 Proof. vm_compute. reflexivity. Qed.
 
-Example ex_float : finite (MinLon ex_bounds) = true /\ fmt_f (MinLon ex_bounds) = lit "-0.125000".
+Definition ex_coord : fl := {| f_class := 0; f_neg := false; f_m := 5059597824406999; f_e := -52 |}.
+Example ex_float :
+  finite (MinLon ex_bounds) = true /\ coord_text (MinLon ex_bounds) = lit "-0.125000" /\
+  coord_text ex_coord = lit "1.1234564" /\ fmt_f ex_coord = lit "1.123456".
+Proof. vm_compute. repeat split. Qed.
+
+Definition ex_world : world :=
+  {| w_lim := LimiterOk; w_ctx := CtxLive; w_follow := true;
+     w_hops := [lit "http://mirror.test/a"; lit "http://mirror.test/b"]; w_hop_status := 302;
+     w_resp := {| r_status := 200; r_body := BOsm [(6, 9)] |} |}.
+Example ex_redirects :
+  let o := call_w ex_cfg ex_world (User 9) in
+  o_trace o = [EvWait; EvRequest "GET" (lit "http://osm.test/api/0.6/user/9");
+               EvRequest "GET" (lit "http://mirror.test/a"); EvRequest "GET" (lit "http://mirror.test/b")]
+  /\ o_data o = Some [(6, 9)] /\ permitted ex_world (User 9) = true.
+Proof. vm_compute. repeat split. Qed.
+
+Example ex_cancelled_before :
+  let w := {| w_lim := LimiterOk; w_ctx := CtxCancelledBefore; w_follow := true; w_hops := [];
+              w_hop_status := 302; w_resp := {| r_status := 200; r_body := BOsm [(6, 9)] |} |} in
+  o_trace (call_w ex_cfg w (User 9)) = [EvWait] /\ permitted w (User 9) = false.
 Proof. vm_compute. split; reflexivity. Qed.
+
+Example ex_download :
+  o_data (call ex_cfg NoLimiter (ChangesetDownload 3) (ok200 (BChange [(1, 4)] [(2, 5); (1, 6)] [(3, 7)])))
+  = Some [(11, 4); (21, 6); (22, 5); (33, 7)].
+Proof. vm_compute. reflexivity. Qed.
